@@ -225,3 +225,19 @@ func (c *vctx) subtreeFootprint() []*uint64 {
 	}
 	return out
 }
+
+// WithoutCancel replaces context.WithoutCancel: the values of the parent without its cancellation and deadline.
+func WithoutCancel(parent context.Context) context.Context { return withoutCancelCtx{parent} }
+
+type withoutCancelCtx struct{ parent context.Context }
+
+func (withoutCancelCtx) Deadline() (time.Time, bool) { return time.Time{}, false }
+func (withoutCancelCtx) Done() <-chan struct{}       { return nil }
+func (withoutCancelCtx) Err() error                  { return nil }
+func (c withoutCancelCtx) Value(key any) any {
+	if key == any(vctxKey) {
+		return nil // contexts derived from this one are roots of their own cancellation trees
+	}
+	return c.parent.Value(key)
+}
+func (c withoutCancelCtx) String() string { return "vs.withoutCancel" }
